@@ -158,6 +158,59 @@ class TracedLock(SerializableLock):
         self.release()
 
 
+class LockProxy:
+    """wraps the lock object the REAL code created (whatever its class): same blocking behaviour, events logged / gated around it.
+    The event label names the underlying mutual-exclusion object, so two wrappers exclude each other in the encoding exactly when the
+    real objects do (a pickled copy shares it iff the lock's own pickling protocol says so)."""
+
+    def __init__(self, real):
+        self.real = real
+
+    def _ev(self, what):
+        inner = getattr(self.real, "lock", self.real)
+        names = _CURRENT.setdefault("locknames", {})
+        ev = (what, names.setdefault(id(inner), f"lock:L{len(names)}"))
+        if _CURRENT["ctl"] is not None:
+            _CURRENT["ctl"].gate(ev)
+        if _rec() is not None:
+            _rec().log(ev)
+
+    def acquire(self, *a, **k):
+        self._ev("acquire")
+        return self.real.acquire(*a, **k)
+
+    def release(self, *a, **k):
+        r = self.real.release(*a, **k)
+        self._ev("release")
+        return r
+
+    def __enter__(self):
+        self._ev("acquire")
+        return self.real.__enter__()
+
+    def __exit__(self, *a):
+        r = self.real.__exit__(*a)
+        self._ev("release")
+        return r
+
+    def locked(self):
+        return self.real.locked()
+
+
+def instrument_lock(variable):
+    """replace the lock held by the backend wrapper of an xarray variable by a LockProxy around it"""
+    obj = variable._data
+    for _ in range(6):
+        if hasattr(obj, "lock"):
+            if not isinstance(obj.lock, LockProxy):
+                obj.lock = LockProxy(obj.lock)
+            return True
+        obj = getattr(obj, "array", None)
+        if obj is None:
+            break
+    return False  # the real code holds no lock here: nothing to trace (the loads are then unconstrained in the encoding)
+
+
 class TracedArray(Array):
     """logs attribute reads/writes of the shared Array object during a load"""
 
@@ -221,27 +274,32 @@ SCENARIOS = {
     "same-variable/different-chunks@shared-handle": [("a", slice(0, 2)), ("a", slice(2, 4))],
     "pickled-copy@shared-handle": [("a", slice(0, 2)), ("a_copy", slice(2, 4))],
     "different-variables@shared-handle": [("a", slice(0, 2)), ("b", slice(1, 3))],
+    # selections xarray hands over as outer (list) indexers, against a slice load of the same variable
+    "list-selection@shared-handle": [("a", slice(2, 4)), ("a", [3, 0])],
+    "list-selection.pickled-copy@shared-handle": [("a", [0, 2]), ("a_copy", [3, 1])],
 }
+
+
+def _sel(sl):
+    return f"{sl.start}:{sl.stop}" if isinstance(sl, slice) else str(sl)
 
 
 def setup(names_needed, shared=False):
     """fresh filesystem, arrays and xarray variables for one scenario; the real code creates the (traced) locks"""
     from ceos_alos2 import xarray as X
 
-    TracedLock, TracedArray = make_traced_lock(), make_traced_array()
+    TracedArray = make_traced_array()
     fs = GateFS({}, shared=shared)
-    saved = X.SerializableLock
-    X.SerializableLock = TracedLock
-    try:
-        arrs, datas, variables = {}, {}, {}
-        for i, nm in enumerate(("a", "b", "c")):
-            arrs[nm], datas[nm] = build_image(fs, f"IMG-{nm}", seed=i + 1, array_cls=TracedArray)
-            variables[nm] = to_xr(arrs[nm])
-        if "a_copy" in names_needed:
-            variables["a_copy"] = pickle.loads(pickle.dumps(variables["a"]))
-            datas["a_copy"] = datas["a"]
-    finally:
-        X.SerializableLock = saved
+    _CURRENT["locknames"] = {}
+    arrs, datas, variables = {}, {}, {}
+    for i, nm in enumerate(("a", "b", "c")):
+        arrs[nm], datas[nm] = build_image(fs, f"IMG-{nm}", seed=i + 1, array_cls=TracedArray)
+        variables[nm] = to_xr(arrs[nm])  # the real conversion creates the real lock
+    if "a_copy" in names_needed:
+        variables["a_copy"] = pickle.loads(pickle.dumps(variables["a"]))  # pickled with the real lock inside (its own protocol)
+        datas["a_copy"] = datas["a"]
+    for v in variables.values():
+        instrument_lock(v)
     return fs, variables, datas
 
 
@@ -459,9 +517,9 @@ def replay(scenario, schedule, programs):
     bad = []
     for i, (nm, sl) in enumerate(loads):
         if i in hung:
-            bad.append(f"load {i} ({nm}[{sl.start}:{sl.stop}]) did not finish (deadlock)")
+            bad.append(f"load {i} ({nm}[{_sel(sl)}]) did not finish (deadlock)")
         elif errors[i]:
-            bad.append(f"load {i} ({nm}[{sl.start}:{sl.stop}]) raised {errors[i]}")
+            bad.append(f"load {i} ({nm}[{_sel(sl)}]) raised {errors[i]}")
         elif not np.array_equal(results[i], datas[nm][sl]):
-            bad.append(f"load {i} ({nm}[{sl.start}:{sl.stop}]) returned {results[i].tolist()} instead of {datas[nm][sl].tolist()}")
+            bad.append(f"load {i} ({nm}[{_sel(sl)}]) returned {results[i].tolist()} instead of {datas[nm][sl].tolist()}")
     return {"reproduced": bool(bad), "detail": bad}
